@@ -494,17 +494,11 @@ pub fn run(ctx: &CheckCtx) -> CheckResult {
     }
     let mut total = Stats::default();
     let mut fams: Vec<Value> = Vec::new();
-    let mutant = crate::mutants::which();
-    let mk_mut = move |m: Option<usize>| crate::mutants::DfsCopy::new(mutant, m);
     let mut exhaustive = true;
     for (fam, labs, passes) in &plan {
         for lab in labs {
             let size = fam.size();
-            let (st, viols) = if mutant >= 100 {
-                sweep(&mk_mut, fam, lab, 0, size, *passes, deadline, nthreads)
-            } else {
-                sweep(&real_dfs, fam, lab, 0, size, *passes, deadline, nthreads)
-            };
+            let (st, viols) = sweep(&real_dfs, fam, lab, 0, size, *passes, deadline, nthreads);
             let complete = !st.capped && st.trees as u128 == size;
             exhaustive &= complete;
             fams.push(json!({
